@@ -43,4 +43,10 @@ PROPS = {
         "(sampled symbols; 12 symbol pairs per position pair for 4 strings at thorough), sampled weight 3-4 incl. same-kind substitutions in the human-readable part",
    assumptions=["same as C04"],
    trusted_base=["Go strings package modelled on ASCII, not verified"]),
+ "C19": P("C19",
+   rule="ops: addr.enc (Bech32 of an address of every prefix x version, then ParseBech32 of it), addr.parse (with re-encoding of the parsed address), addr.frompk/fromoutput, mig.enc, mig.dec. "
+        "All prefixes x versions x random/boundary hashes; Bech32 strings carrying every version byte 0..255 and payload lengths 0..50 under known and unknown prefixes, upper-case forms; corrupted addresses; "
+        "migration round trips, single-tryte substitutions at every position of sampled strings, lengths 80/82, lower case, non-ASCII, bad prefix/suffix, invalid groups",
+   assumptions=["BLAKE2b is a function (arbitrary H in the theorems); iota.go guards/trinary helpers as modelled"],
+   trusted_base=["Lean BLAKE2b oracle in the driver (validated against x/crypto by this run)"]),
 }
